@@ -79,6 +79,13 @@ def scenarios(tier, rng):
                 i += 1
                 out.append({"id": "m%d" % i, "letters": seq, "handler": True, "slow": False, "topic": tp, "maxPayload": mx, "payloadLen": mx - 6})
                 i += 1
+    # identifiers a broker hands out after some hundred deliveries: both bytes of the identifier count in every
+    # acknowledgement (the exhaustive sequences above use identifiers below 256)
+    for a, b in ((256, 257), (300, 0x1234), (0xFFFF, 0xFF00), (0x0100, 0x0001)):
+        for seq in ([dict(Q1, id=a)], [dict(Q2, id=b), dict(R, id=b)], [dict(Q1, id=a), dict(Q2, id=b), dict(Q1, id=a + 0 if a < 0xFFFF else 1), dict(Q2, id=b, dup=True), dict(R, id=b), dict(R, id=b)]):
+            for h in (True, False):
+                out.append({"id": "i%d" % i, "letters": seq, "handler": h, "slow": False})
+                i += 1
     nrand = 3000 if tier == "quick" else 40000
     for j in range(nrand):
         ln = rng.randint(full + 1, 40 if j % 4 == 0 else 9)
